@@ -1,8 +1,9 @@
 """C05 - PDO variables occupy exactly their mapped bits."""
-import math, types
+import logging, math, types
 from vlib.obs import Err, guarded, gz, gzlist, gnat, glist
 from props.c04 import INT_TYPES, BOOLEAN, REAL32, REAL64, REALS, bits_to_float, float_to_bits, rng_of
 
+logging.disable(logging.CRITICAL)
 PROP = "C05"
 MODEL_VO = ["theories/Model/Pdo.vo"]
 COQ_IMPORTS = "From CV Require Import Model.Codec Model.Pdo."
@@ -25,7 +26,7 @@ def type_bits(dt):
     return {BOOLEAN: 8, REAL32: 32, REAL64: 64}[dt]
 
 
-def build(layout):
+def build(layout, pre=None):
     import canopen
     from canopen import objectdictionary as odm
     from canopen.pdo.base import PdoMap
@@ -37,14 +38,20 @@ def build(layout):
     node = types.SimpleNamespace(object_dictionary=od)
     pdo_node = types.SimpleNamespace(node=node, network=None)
     m = PdoMap(pdo_node, None, None)
+    if pre is not None:
+        # an earlier mapping of the same objects (other lengths), un-mapped again with clear()
+        for i, (dt, ln) in enumerate(pre):
+            m.add_variable(0x2000 + i, 0, ln)
+        m.clear()
     for i, (dt, ln) in enumerate(layout):
-        m.add_variable(0x2000 + i, 0, ln)
+        # an object mapped with its own length is added without an explicit length
+        m.add_variable(0x2000 + i, 0, None if (ln == type_bits(dt) and dt != BOOLEAN) else ln)
     return m
 
 
 def impl(c):
     def run():
-        m = build(c["layout"])
+        m = build(c["layout"], c.get("pre"))
         out = [len(m.data), [v.offset for v in m.map]]
         m.data = bytearray(c["frame"])
         for op in c["ops"]:
@@ -217,7 +224,11 @@ def make_case(rng, layout, focus, nvals, all_values=False):
         for kind, v in field_values(rng, layout[k][0], layout[k][1], 1):
             ops.append([kind, k, v])
     ops += [["r", k] for k in range(len(layout))]
-    return dict(kind="pdo", layout=layout, frame=frame, ops=ops)
+    c = dict(kind="pdo", layout=layout, frame=frame, ops=ops)
+    if rng.random() < 0.35:
+        # the same objects were mapped before with other lengths (sub-byte for the 8-bit types) and un-mapped again
+        c["pre"] = [[dt, (rng.randrange(1, max(2, min(8, ln + 1))) if dt in (U8, I8) else ln)] for dt, ln in layout]
+    return c
 
 
 def gen_cases(rng, tier):
